@@ -119,6 +119,11 @@ CONFIGS = {
         {"L1": ["x.y"], "L2": ["r.a", "r.b"]},
         {"L1": ["r.a", "x"], "L2": ["r.b"]},
     ],
+    "T6N": [  # a layer that lists a module together with one (not all) of its sub modules
+        {"L1": ["r.a", "r.a.x"], "L2": ["r.b"]},
+        {"L1": ["r.b", "r.b.x"], "L2": ["r.a.y", "r.c"]},
+        {"L1": ["r.c"], "L2": ["r.a", "r.a.x"]},
+    ],
     "T6": [
         {"L1": ["r.a.x", "r.b.x"], "L2": ["r.a.y"], "L3": ["r.c"]},
         {"L1": ["r.a"], "L2": ["r.b.x", "r.c"]},
@@ -129,10 +134,11 @@ CONFIGS = {
 
 def exh_shard(arg, stt, deadline) -> None:
     tkey, shard, nshards, max_edges = arg
+    ckey, tkey = tkey, tkey.rstrip("N")
     tree = RS.TREES[tkey]
     cand = M.candidate_edges(tree, allow_root_target=False, root=tree[0])
     plans = []
-    for config in CONFIGS[tkey]:
+    for config in CONFIGS[ckey]:
         rules = enum_layer_rules(list(config))
         for kinds in product(("names", "regex"), repeat=len(config)):
             plans.append((defs_from(config, kinds), rules))
@@ -251,6 +257,8 @@ def run(ctx) -> None:
                        "T4: all 2048 import relations x 5 layer partitions x all named/regex choices x all layer rules")
         ctx.exhaustive("T6-layer-configs", MOD, "exh_shard", [("T6", i, 128, 2) for i in range(128)],
                        "T6: all import relations with <= 2 of 27 candidate edges x 3 layer partitions x all named/regex choices x all layer rules")
+    ctx.exhaustive("T6-layers-with-nested-members", MOD, "exh_shard", [("T6N", i, 16, 2 if ctx.tier == "quick" else 3) for i in range(16)],
+                   "T6: import relations with <= 2 (thorough 3) of 27 candidate edges x 3 partitions in which a layer lists a module together with one of its sub modules x named/regex x all layer rules")
     ctx.exhaustive("TX-top-level-layer-modules", MOD, "exh_shard", [("TX", i, nsh, 2 if ctx.tier == "quick" else 3) for i in range(nsh)],
                    "TX (second top-level package x): import relations with <= 2 (thorough 3) edges x 4 partitions listing single-component modules x named/regex x all layer rules")
     ctx.random("random-layers", MOD, "strategy", "check_case", 12000 if ctx.tier == "quick" else 250000)
